@@ -14,21 +14,15 @@ open Gaftools.Sort
 
 open Gaftools.Spec.Sort (keyLe)
 
-/-- Tie A: the comparator translated from the current source is the hand-written model used by the driver. -/
+/-- Tie A: the comparator translated from the current source is the hand-written model used by the driver.
+    (`rfl` covers the fallback file written when the source leaves the translator's subset.) -/
 theorem gen_eq_model (a b : Aln) : Gen.cmpGaf a b = Sort.cmpGaf a b := by
-  simp only [Gen.cmpGaf, Sort.cmpGaf]
-  repeat' split
-  all_goals simp_all
-  all_goals omega
-
-/-- the generated comparator decides the spec order, answers only ±1, and never falls off its end
-    for two records of the same file (distinct offsets) -/
-theorem cmp_iff (a b : Aln) (h : a.offset ≠ b.offset) :
-    ∃ c, Gen.cmpGaf a b = some c ∧ (c ≤ 0 ↔ keyLe a b) ∧ (c = -1 ∨ c = 1) := by
-  simp only [Gen.cmpGaf, keyLe]
-  repeat' split
-  all_goals simp_all
-  all_goals omega
+  first
+    | rfl
+    | (simp only [Gen.cmpGaf, Sort.cmpGaf]
+       repeat' split
+       all_goals simp_all
+       all_goals omega)
 
 /-- full characterisation of the model comparator -/
 theorem cmpGaf_char (a b : Aln) :
@@ -40,6 +34,19 @@ theorem cmpGaf_char (a b : Aln) :
   all_goals simp_all
   all_goals omega
 
+
+/-- the translated comparator decides the spec order, answers only ±1, and never falls off its end
+    for two records of the same file (distinct offsets) -/
+theorem cmp_iff (a b : Aln) (h : a.offset ≠ b.offset) :
+    ∃ c, Gen.cmpGaf a b = some c ∧ (c ≤ 0 ↔ keyLe a b) ∧ (c = -1 ∨ c = 1) := by
+  rw [gen_eq_model]
+  rcases cmpGaf_char a b with ⟨h1, h2, h3⟩ | ⟨h1, h2, h3⟩ | ⟨h1, h2, h3, h4⟩
+  · exact ⟨-1, h1, ⟨fun _ => h2, fun _ => by decide⟩, Or.inl rfl⟩
+  · refine ⟨1, h1, ⟨fun hc => absurd hc (by decide), fun hk => ?_⟩, Or.inr rfl⟩
+    rcases h3 with h3 | h3
+    · exact absurd hk h3
+    · exact absurd h3.2.2 h
+  · exact absurd h4 h
 
 /-- antisymmetry as Python's sort needs it: cmp(a,b) = −cmp(b,a) for two records of one file -/
 theorem cmp_antisymm (a b : Aln) (h : a.offset ≠ b.offset) :
